@@ -338,6 +338,104 @@ func StartAgent(bin string, md *Metadata, proxyURL, backendHost, backendID strin
 	return Start("agent", bin, args, append(md.Env(), env...))
 }
 
+// AgentConfig is one configuration of the agent as classes of spec/AgentConfig.tla (flag name -> class).
+type AgentConfig map[string]string
+
+// Name is a short stable label ("default" or the non-default classes).
+func (c AgentConfig) Name() string {
+	var parts []string
+	for _, f := range []string{"timeout", "shim", "banner", "sessions", "health", "debug", "grace", "vmid", "ids"} {
+		if v, ok := c[f]; ok && v != map[string]string{"timeout": "default"}[f] && v != "off" && v != "" {
+			parts = append(parts, f+"="+v)
+		}
+	}
+	if len(parts) == 0 {
+		return "default"
+	}
+	return strings.Join(parts, ",")
+}
+
+// Args turns the classes into the agent's documented command-line flags; vmid tells whether the agent adds its
+// GCE VM identity header (i.e. --disable-gce-vm-header must be left out).
+func (c AgentConfig) Args() (args []string, vmid bool) {
+	switch c["timeout"] {
+	case "none":
+		args = append(args, "--proxy-timeout=0")
+	case "long":
+		args = append(args, "--proxy-timeout=5m")
+	case "1s":
+		args = append(args, "--proxy-timeout=1s")
+	}
+	switch c["shim"] {
+	case "path-only":
+		args = append(args, "--shim-path=/__shim")
+	case "on":
+		args = append(args, "--shim-websockets", "--shim-path=/__shim")
+	case "on-opts":
+		args = append(args, "--shim-websockets", "--shim-path=/__shim", "--rewrite-websocket-host", "--enable-websockets-injection")
+	}
+	switch c["banner"] {
+	case "on":
+		args = append(args, "--inject-banner=<b>B</b>")
+	case "favicon":
+		args = append(args, "--inject-banner=<b>B</b>", "--favicon-url=static/f.png", "--banner-height=10%")
+	}
+	switch c["sessions"] {
+	case "on":
+		args = append(args, "--session-cookie-name=vsid")
+	case "small":
+		args = append(args, "--session-cookie-name=vsid", "--session-cookie-cache-limit=5")
+	}
+	if c["health"] == "on" {
+		args = append(args, "--health-check-interval-seconds=1", "--health-check-unhealthy-threshold=3")
+	}
+	if c["debug"] == "on" {
+		args = append(args, "--debug")
+	}
+	if c["grace"] == "on" {
+		args = append(args, "--graceful-shutdown-timeout=2s")
+	}
+	switch c["ids"] {
+	case "fwd":
+		args = append(args, "--forward-user-id")
+	case "strip":
+		args = append(args, "--strip-credentials")
+	case "both":
+		args = append(args, "--forward-user-id", "--strip-credentials")
+	}
+	return args, c["vmid"] == "on"
+}
+
+// AgentConfigs reads the configurations chosen for this run (file named by VERIF_AGENT_CONFIGS, written by the
+// orchestrator from TLC's enumeration); without it there is only the default configuration.
+func AgentConfigs() []AgentConfig {
+	out := []AgentConfig{{}}
+	p := os.Getenv("VERIF_AGENT_CONFIGS")
+	if p == "" {
+		return out
+	}
+	b, err := os.ReadFile(p)
+	if err != nil {
+		return out
+	}
+	var cs []AgentConfig
+	if json.Unmarshal(b, &cs) != nil || len(cs) == 0 {
+		return out
+	}
+	return cs
+}
+
+// StartAgentCfg is StartAgent under a configuration of spec/AgentConfig.tla.
+func StartAgentCfg(bin string, md *Metadata, proxyURL, backendHost, backendID string, cfg AgentConfig, extraArgs []string, env []string) (*Proc, error) {
+	cargs, vmid := cfg.Args()
+	args := []string{"--backend=" + backendID, "--proxy=" + proxyURL, "--host=" + backendHost}
+	if !vmid {
+		args = append(args, "--disable-gce-vm-header")
+	}
+	args = append(append(args, cargs...), extraArgs...)
+	return Start("agent", bin, args, append(md.Env(), env...))
+}
+
 // FreePort returns a currently unused TCP port.
 func FreePort() int {
 	l, err := net.Listen("tcp", "127.0.0.1:0")
